@@ -1,6 +1,6 @@
 // target: src/operator/mod.rs
 // Native replay drivers for single operators / window managers (see replay/SPEC.md).
-// Kinds here: fold, keyed_fold, reorder, mgr_count, mgr_event_time.
+// Kinds here: fold, keyed_fold, rich_map, reorder, mgr_count, mgr_event_time.
 // The shared pieces (script upstream, argument decoding, output formatting, Vec accumulator) are
 // pub(crate) so that ops_winop.rs (a child of operator::window) can reuse them.
 #![allow(dead_code, unused_imports, unused_variables, clippy::all)]
@@ -432,6 +432,18 @@ fn run(name: &str, args: &[i128]) -> Result<Option<String>, String> {
                 super::keyed_fold::KeyedFold::new(ScriptOp::new(p.script), 0u64, f),
                 n,
             )
+        }
+        "rich_map" => {
+            // keyed rich_map with a counting closure: output value = (calls made so far on this key's clone of the
+            // function, this one included) * 2^32 + input value
+            let p = parse(args, 0)?;
+            let n = p.script.len();
+            let mut calls = 0u64;
+            let f = move |(_k, v): (&u64, u64)| {
+                calls += 1;
+                (calls << 32).wrapping_add(v & 0xffff_ffff)
+            };
+            drive(super::rich_map::RichMap::new(ScriptOp::new(p.script), f), n)
         }
         "reorder" => {
             let p = parse(args, 0)?;
